@@ -66,7 +66,10 @@ def run : Runner
       -- input) that `C16_cache_coherent` assumes - evaluated here on the real wire package
       let implRes := ((impl.splitOn " RES ").getD 1 "").splitOn " RE " |>.headD ""
       let mine := if toks.isEmpty then "-" else " ".intercalate toks
-      pure { model := impl,
+      -- only the re-parse section is taken over from the observation, and only when the bytes do not round-trip (it is
+      -- then about the foreign bytes); everything else - EXT, RES, the height bookkeeping - is the model's own
+      let implRe := (((impl.splitOn " RE ").getD 1 "").splitOn " ").headD ""
+      pure { model := s!"EXT {ext} RES {mine} RE {if foreign == W.ser then re else implRe} height-ok",
              prop := if implRes != mine then "violated:differs from the specified value"
                      else if foreign != W.ser then "violated:the parsed bytes are cached as the serialisation but the wire package writes the parsed message differently (wire round trip)"
                      else "ok" }
@@ -76,7 +79,8 @@ def run : Runner
       -- from the wire message ... however it was constructed" fails here (known finding)
       let implRes := ((impl.splitOn " RES ").getD 1 "").splitOn " RE " |>.headD ""
       let mine := if toks.isEmpty then "-" else " ".intercalate toks
-      pure { model := impl,
+      let implRe := (((impl.splitOn " RE ").getD 1 "").splitOn " ").headD ""
+      pure { model := s!"EXT {ext} RES {mine} RE {if foreign == W.ser then re else implRe} height-ok",
              prop := if implRes != mine then "violated:differs from the specified value"
                      else if foreign != W.ser then "violated:caller-supplied bytes returned as the serialisation (NewBlockFromBlockAndBytes trusts its caller)"
                      else "ok" }
